@@ -54,9 +54,10 @@ class Relay:
             # DBAPI connection (StaticPool), so that one task's release / rollback hits another task's open transaction
             self._dir = common.scratch_dir("nrsql-")
             self.store = SQLStore(validators=list(validators), authentication=authentication, output_validator=output_validator,
-                                  url="sqlite+aiosqlite:///" + self._dir + "/relay.sqlite3")
+                                  url="sqlite+aiosqlite:///" + self._dir + "/relay.sqlite3", service_key="07" * 32)
         else:
-            self.store = KVStore(validators=list(validators), authentication=authentication, output_validator=output_validator)
+            self.store = KVStore(validators=list(validators), authentication=authentication, output_validator=output_validator,
+                                 service_key="07" * 32)
         self.backend = backend
         self.loop = self.store.loop
         self.storage = self.store.storage
